@@ -218,6 +218,16 @@ def check(case: Dict[str, Any]) -> Outcome:
     if case.get("real"):
         return check_real(case)
     out = Outcome()
+    if "huge" in case:
+        # a compact description of a stream with one very long line: [bytes of the long line, first read, later reads]
+        size, first, step = case["huge"]
+        small = [('{"jsonrpc":"2.0","method":"n/%d","params":{"t":"\u00e9"}}\n' % k).encode("utf-8") for k in range(6)]
+        head = b'{"jsonrpc":"2.0","id":1,"result":{"blob":"'
+        long_line = head + b"x" * max(0, size - len(head) - 4) + b'"}}\n'
+        stream = b"".join(small[:2]) + long_line + b"".join(small[2:])
+        start = len(small[0]) + len(small[1])
+        cuts = [start + first] + list(range(start + first + step, len(stream), step))
+        case = dict(case, stream=stream, cuts=cuts)
     stream: bytes = case["stream"]
     cuts: List[int] = sorted(case.get("cuts", []))
     as_str = bool(case.get("as_str", False))
@@ -230,7 +240,9 @@ def check(case: Dict[str, Any]) -> Outcome:
         spans = _utf8_char_spans(stream)
         cuts = [c for c in cuts if not any(a < c < b for a, b in spans)]  # str chunks cannot split a character
     out.nontrivial, out.classes = classify_case(stream, cuts, info)
-    out.classes = out.classes + (("str-chunks",) if as_str else ("byte-chunks",))
+    out.classes = out.classes + (("str-chunks",) if as_str else ("byte-chunks",)) + ((f"line-of-{case['huge'][0] >> 20}MiB-class",) if "huge" in case else ())
+    if "huge" in case:
+        out.nontrivial = True
     probe = not has_tail
     try:
         r = run_library(stream, cuts, as_str, probe)
@@ -524,18 +536,38 @@ def job_atheris(col: Collector, seed: int, tier: str, seconds: int, corpus: str)
     run_fuzz_job(col, "stdio", seconds, seed, corpus)
 
 
-JOBS = {"many": job_many, "real": job_real, "atheris": job_atheris, "hyp": job_hyp, "exhaustive": job_exhaustive, "long": job_long}
+def job_huge(col: Collector, seed: int, tier: str, shard: int) -> None:
+    """one well-formed line just below and just above 1, 4, 8 and 16 MiB between small ones, read in 64 KiB pieces that
+    are not aligned to its start (and in two other ways): sizes where a length guard or a buffer policy would sit"""
+    sizes = []
+    for mib in ((1, 4) if tier == "quick" else (1, 4, 8, 16)):
+        n = mib << 20
+        sizes += [n - 60000, n - 100, n + 100]
+    k = 0
+    for size in sizes:
+        for first, step in ((1000, 65536), (65536, 65536), (size // 3, size // 3 + 7)):
+            k += 1
+            if k % 4 != shard:
+                continue
+            case = {"huge": [size, first, step]}
+            col.record(case, check(case))
+    if shard == 0:
+        col.exhaustive_parts.append(f"a line of {sizes} bytes between small lines x 3 read patterns (64 KiB reads offset by 1000 bytes, aligned, thirds)")
+
+
+JOBS = {"huge": job_huge, "many": job_many, "real": job_real, "atheris": job_atheris, "hyp": job_hyp, "exhaustive": job_exhaustive, "long": job_long}
 
 
 def jobs(tier: str):
     if tier == "quick":
-        return [("hyp", {"shard": s, "n": 250}) for s in range(8)] + [("exhaustive", {"shard": s, "nshards": 7, "k": 2}) for s in range(7)] + [("long", {"shard": 0, "n": 20}), ("many", {"shard": 0, "n": 25})]
+        return [("hyp", {"shard": s, "n": 250}) for s in range(8)] + [("exhaustive", {"shard": s, "nshards": 7, "k": 2}) for s in range(7)] + [("long", {"shard": 0, "n": 20}), ("many", {"shard": 0, "n": 25})] + [("huge", {"shard": s}) for s in range(4)]
     return (
         (
         [("hyp", {"shard": s, "n": 6000}) for s in range(6)]
         + [("exhaustive", {"shard": s, "nshards": 8, "k": 3}) for s in range(8)]
         + [("long", {"shard": s, "n": 300}) for s in range(2)]
         + [("many", {"shard": s, "n": 300}) for s in range(2)]
+        + [("huge", {"shard": s}) for s in range(4)]
     )
         + [("atheris", {"seconds": 150, "corpus": "seeded"}), ("atheris", {"seconds": 150, "corpus": "empty"})]
         + [("real", {"shard": s, "n": 40}) for s in range(4)]
